@@ -1178,9 +1178,9 @@ def parse_let(writer, text, index, *cwd):
             if dname == 'cfg':
                 writer.fields['cfg'][key] = value
             else:
-                value = _format_params(writer.expand(value, *cwd), text[index:end], **writer.fields)
+                value = _format_params(expand_macros(writer, value, *cwd), text[index:end], **writer.fields)
                 if key:
-                    key = _format_params(writer.expand(key, *cwd), text[index:end], **writer.fields)
+                    key = _format_params(expand_macros(writer, key, *cwd), text[index:end], **writer.fields)
                     try:
                         key = evaluate(key)
                     except ValueError:
@@ -1198,7 +1198,7 @@ def parse_let(writer, text, index, *cwd):
                         raise NoParametersError(f"No values provided: '{name}={value}'")
                     writer.fields[dname] = _eval_map(args, value, dname.endswith('$'))
         else:
-            value = _format_params(writer.expand(value, *cwd), text[index:end], **writer.fields)
+            value = _format_params(expand_macros(writer, value, *cwd), text[index:end], **writer.fields)
             try:
                 writer.fields[name] = eval_variable(name, value)
             except ValueError:
